@@ -33,6 +33,7 @@ mod raft {
     include!(concat!(env!("OUT_DIR"), "/raft.rs"));
 }
 mod healthy;
+mod qjson;
 mod sim;
 mod walk;
 
@@ -44,6 +45,7 @@ fn main() {
         "walk" => walk::run(&args),
         "replay" => walk::replay(&args),
         "healthy" => healthy::run(&args),
+        "qjson" => qjson::run(),
         other => {
             eprintln!("unknown subcommand {other:?}");
             std::process::exit(2);
